@@ -102,6 +102,16 @@ struct v_led {
     uint32_t hello_seen_mask;
 };
 
+/* ---- Hello property chain (C02/C04): maintained by the ghost clauses of the writers' chain contracts -------- */
+struct v_hc {
+    size_t   end;      /* offset just behind the last property written */
+    uint32_t seen;     /* bit t set: a property of type t has been written */
+    uint8_t  first;    /* type of the first property */
+    uint8_t  count;    /* properties written */
+    uint8_t  ended;    /* the end-of-property marker has been written (at end - 1) */
+};
+extern struct v_hc g_hc;
+
 extern struct v_cfg g_cfg;
 extern struct v_led g_led;
 extern size_t g_k;            /* ghost byte index  */
@@ -142,19 +152,16 @@ extern struct v_req g_req;
 #define V_K_ANY    5   /* generic well-formedness only                                */
 
 #include "v_nocheck_push.h"
-static inline bool v_mac_eq(const uint8_t *a, const uint8_t *b) {
-    return a[0] == b[0] && a[1] == b[1] && a[2] == b[2] && a[3] == b[3] && a[4] == b[4] && a[5] == b[5];
-}
-static inline bool v_mac_bcast(const uint8_t *a) {
-    return a[0] == 0xFF && a[1] == 0xFF && a[2] == 0xFF && a[3] == 0xFF && a[4] == 0xFF && a[5] == 0xFF;
-}
-static inline bool v_mac_eq_at(const uint8_t *f, size_t off, const uint8_t *m) {
-    return f[off] == m[0] && f[off + 1] == m[1] && f[off + 2] == m[2] && f[off + 3] == m[3] && f[off + 4] == m[4] && f[off + 5] == m[5];
-}
-static inline uint16_t v_be16(const uint8_t *p) { return (uint16_t)(((uint16_t)p[0] << 8) | p[1]); }
-static inline uint32_t v_be32(const uint8_t *p) {
-    return ((uint32_t)p[0] << 24) | ((uint32_t)p[1] << 16) | ((uint32_t)p[2] << 8) | (uint32_t)p[3];
-}
+/* Leaf helpers are MACROS: a specification function that is called from a contract clause must not call
+ * another function (DFCC mis-links the inner call when the contract is used for replacement: "not enough
+ * arguments, inserting non-deterministic value"). */
+#define v_mac_eq(a_, b_) ((a_)[0] == (b_)[0] && (a_)[1] == (b_)[1] && (a_)[2] == (b_)[2] && (a_)[3] == (b_)[3] && \
+                          (a_)[4] == (b_)[4] && (a_)[5] == (b_)[5])
+#define v_mac_bcast(a_) ((a_)[0] == 0xFF && (a_)[1] == 0xFF && (a_)[2] == 0xFF && (a_)[3] == 0xFF && (a_)[4] == 0xFF && (a_)[5] == 0xFF)
+#define v_mac_eq_at(f_, off_, m_) ((f_)[(off_)] == (m_)[0] && (f_)[(off_) + 1] == (m_)[1] && (f_)[(off_) + 2] == (m_)[2] && \
+                                   (f_)[(off_) + 3] == (m_)[3] && (f_)[(off_) + 4] == (m_)[4] && (f_)[(off_) + 5] == (m_)[5])
+#define v_be16(p_) ((uint16_t)(((uint16_t)(p_)[0] << 8) | (p_)[1]))
+#define v_be32(p_) (((uint32_t)(p_)[0] << 24) | ((uint32_t)(p_)[1] << 16) | ((uint32_t)(p_)[2] << 8) | (uint32_t)(p_)[3])
 
 /* domain of the configuration (the quantifier ranges of the properties) */
 static inline bool v_cfg_ok(const struct v_cfg *c) {
@@ -165,7 +172,6 @@ static inline bool v_cfg_ok(const struct v_cfg *c) {
     if (c->clk_s0 >= ((uint64_t)1 << 40) || c->clk_frac0 >= 1000) return false;
     return true;
 }
-
 #include "v_nocheck_pop.h"
 void v_env_reset(void);       /* zero the ledger, start the clock at g_cfg.clk_* */
 
